@@ -131,6 +131,7 @@ class Runner:
         self.pool = copy.deepcopy(pool)  # problem dicts owned by the 'caller'
         self.models = {}
         self.pp = None
+        self.pp_model = None
         self.pp_idx = None
         self.tmp = None
 
@@ -186,6 +187,21 @@ class Runner:
                 if self.pp is None:
                     self.pp = PinchProblem()
                 self.pp.load(TargetInput.model_validate(copy.deepcopy(inp)))
+                self.pp_idx = op["i"]
+                res = self.pp.target()
+            elif kind == "pp_edit_model_and_reload":
+                # the caller keeps ONE model object, rewrites it in place into another problem and loads it again
+                inp = self.pool[op["i"]]
+                snap = copy.deepcopy(inp)
+                fresh = TargetInput.model_validate(copy.deepcopy(inp))
+                if self.pp is None:
+                    self.pp = PinchProblem()
+                if getattr(self, "pp_model", None) is None:
+                    self.pp_model = fresh
+                else:
+                    for field in type(fresh).model_fields:
+                        setattr(self.pp_model, field, getattr(fresh, field))
+                self.pp.load(self.pp_model)
                 self.pp_idx = op["i"]
                 res = self.pp.target()
             elif kind == "pp_target_again":
@@ -295,7 +311,7 @@ def evaluate(case) -> Outcome:
     steps = forksut.run_in_child(lambda: history_child(pool, ops))
     pp_idx = None
     for k, (op, obs) in enumerate(zip(ops, steps)):
-        if op["op"] in ("pp_load_target", "pp_reload_target"):
+        if op["op"] in ("pp_load_target", "pp_reload_target", "pp_edit_model_and_reload"):
             pp_idx = op["i"]
         want = forksut.run_in_child(lambda: oneshot_child(pool, op, pp_idx))
         ctx = f"call {k} ({op['op']}{'' if 'i' not in op else ' #' + str(op['i'])}) after {[o['op'] + ('' if 'i' not in o else '#' + str(o['i'])) for o in ops[:k]]}"
@@ -392,8 +408,13 @@ def machine(col, tier):
 
         @rule(i=st.integers(0, 3))
         def pp_reload_target(self, i):
-            if self.has_pp:
-                self._add({"op": "pp_reload_target", "i": i % self.n})
+            self._add({"op": "pp_reload_target", "i": i % self.n})
+            self.has_pp = True
+
+        @rule(i=st.integers(0, 3))
+        def pp_edit_model_and_reload(self, i):
+            self._add({"op": "pp_edit_model_and_reload", "i": i % self.n})
+            self.has_pp = True
 
         @rule()
         def pp_target_again(self):
@@ -457,4 +478,4 @@ PARTS = [
     Part("histories", evaluate, {"quick": 240, "thorough": 5000}, machine=machine, steps={"quick": 6, "thorough": 10}, min_nontrivial={"quick": 60, "thorough": 1500}),
     Part("fresh_interpreter", eval_fresh, {"quick": 4, "thorough": 48}, strategy=lambda tier: G.problem(min_streams=2, max_streams=6, thirds=False), min_nontrivial={"quick": 2, "thorough": 20}),
 ]
-MIN_SHARE = {"histories": {"model-object-reused": 0.069, "op:pp_export": 0.03, "op:pp_reload_target": 0.027, "op:service_dict": 0.099, "pool-has-user-zone-tree": 0.2}}
+MIN_SHARE = {"histories": {"model-object-reused": 0.069, "op:pp_export": 0.03, "op:pp_reload_target": 0.02, "op:pp_edit_model_and_reload": 0.02, "op:service_dict": 0.099, "pool-has-user-zone-tree": 0.2}}
